@@ -24,22 +24,18 @@ fn tilemap_sprite(w: u16, h: u16, tw: u16, th: u16, tile_count: u32, x: i16, y: 
     mk_file(w, h, 1, PixelFormat::Rgba, ld, mk_cels(vec![vec![Some(cel)]]), sets, Vec::new())
 }
 
-/// logical size, tile size, offsets, and lookups at ANY u32 coordinates for a stored 1x1 map
+/// logical size and tile size for ALL canvas sizes and tile sizes (offset 0)
 #[kani::proof]
 #[kani::unwind(6)]
 #[kani::stub(alloc::fmt::format, crate::vklib::empty_format)]
 #[kani::stub(std::hash::RandomState::new, crate::vklib::fixed_random_state)]
 #[kani::stub(crate::tileset::TilesetsById::get, crate::vklib::stub_tilesets_get_static)]
 #[kani::stub(crate::vklib::stubs_probe, crate::vklib::stubs_probe_stubbed)]
-fn c08_q_tilemap_geometry_and_lookup() {
+fn c08_t_tilemap_size_in_tiles() {
     let (w, h): (u16, u16) = (kani::any(), kani::any());
     let (tw, th): (u16, u16) = (kani::any(), kani::any());
     kani::assume(tw >= 1 && th >= 1);
-    let (x, y): (i16, i16) = (kani::any(), kani::any());
-    kani::assume(x as i32 % tw as i32 == 0 && y as i32 % th as i32 == 0); // tile-aligned offsets
-    let id: u32 = kani::any();
-    kani::assume(id < 3);
-    let file = tilemap_sprite(w, h, tw, th, 3, x, y, 1, 1, &[id]);
+    let file = tilemap_sprite(w, h, tw, th, 3, 0, 0, 1, 1, &[1]);
     let tm = match file.tilemap(0, 0) {
         Some(t) => t,
         None => {
@@ -47,23 +43,63 @@ fn c08_q_tilemap_geometry_and_lookup() {
             return;
         }
     };
-    let ceil = |a: u16, b: u16| ((a as u32) + (b as u32) - 1) / (b as u32);
-    assert!(tm.width() == ceil(w, tw) && tm.height() == ceil(h, th), "size in tiles == canvas size / tile size rounded up");
+    // ceil(a / b) without a division: the unique c with (c-1)*b < a <= c*b
+    let is_ceil = |a: u16, b: u16, c: u32| (c as u64) * (b as u64) >= a as u64 && (c == 0 || (c as u64 - 1) * (b as u64) < a as u64);
+    assert!(is_ceil(w, tw, tm.width()) && is_ceil(h, th, tm.height()), "size in tiles == canvas size / tile size rounded up");
     assert!(tm.tile_size() == (tw as u32, th as u32));
+    assert!(file.tilemap(1, 0).is_none() && file.tilemap(0, 1).is_none(), "out-of-range arguments give None");
+    kani::cover!(tm.width() == 3 && tw == 7);
+    kani::cover!(w == 0);
+    core::mem::forget(file);
+}
+
+/// quick variant of the size check: every canvas size, tiles of 8x4 and 5x3 (the all-tile-sizes query takes ~9 min)
+#[kani::proof]
+#[kani::unwind(6)]
+#[kani::stub(alloc::fmt::format, crate::vklib::empty_format)]
+#[kani::stub(std::hash::RandomState::new, crate::vklib::fixed_random_state)]
+#[kani::stub(crate::tileset::TilesetsById::get, crate::vklib::stub_tilesets_get_static)]
+#[kani::stub(crate::vklib::stubs_probe, crate::vklib::stubs_probe_stubbed)]
+fn c08_q_tilemap_size_in_tiles_fixed_tiles() {
+    let (w, h): (u16, u16) = (kani::any(), kani::any());
+    let odd: bool = kani::any();
+    let (tw, th): (u16, u16) = if odd { (5, 3) } else { (8, 4) };
+    let file = tilemap_sprite(w, h, tw, th, 3, 0, 0, 1, 1, &[1]);
+    let tm = file.tilemap(0, 0).unwrap();
+    let is_ceil = |a: u16, b: u16, c: u32| (c as u64) * (b as u64) >= a as u64 && (c == 0 || (c as u64 - 1) * (b as u64) < a as u64);
+    assert!(is_ceil(w, tw, tm.width()) && is_ceil(h, th, tm.height()), "size in tiles == canvas size / tile size rounded up");
+    assert!(tm.tile_size() == (tw as u32, th as u32));
+    kani::cover!(odd && w == 11 && tm.width() == 3);
+    kani::cover!(!odd && w == 65535);
+    core::mem::forget(file);
+}
+
+/// offsets and lookups at ANY u32 coordinates: tiles of 8x4, stored 1x1 map at every tile-aligned i16 offset
+#[kani::proof]
+#[kani::unwind(6)]
+#[kani::stub(alloc::fmt::format, crate::vklib::empty_format)]
+#[kani::stub(std::hash::RandomState::new, crate::vklib::fixed_random_state)]
+#[kani::stub(crate::tileset::TilesetsById::get, crate::vklib::stub_tilesets_get_static)]
+#[kani::stub(crate::vklib::stubs_probe, crate::vklib::stubs_probe_stubbed)]
+fn c08_q_tilemap_geometry_and_lookup() {
+    let (ox, oy): (i16, i16) = (kani::any(), kani::any());
+    kani::assume(ox >= -4096 && ox < 4096 && oy >= -8192 && oy < 8192);
+    let (x, y) = (ox * 8, oy * 4);
+    let id: u32 = kani::any();
+    kani::assume(id < 3);
+    let file = tilemap_sprite(64, 64, 8, 4, 3, x, y, 1, 1, &[id]);
+    let tm = file.tilemap(0, 0).unwrap();
     assert!(tm.pixel_offsets() == (x as i32, y as i32));
-    let (ox, oy) = (x as i64 / tw as i64, y as i64 / th as i64);
     assert!(tm.tile_offsets() == (ox as i32, oy as i32), "tile offsets == cel offset / tile size");
     let (qx, qy): (u32, u32) = (kani::any(), kani::any());
     let t = tm.tile(qx, qy);
-    if qx as i64 - ox == 0 && qy as i64 - oy == 0 {
+    if qx as i64 - ox as i64 == 0 && qy as i64 - oy as i64 == 0 {
         assert!(t.id() == id, "lookup inside the stored area returns the stored tile");
     } else {
         assert!(t.id() == 0, "lookup outside the stored area returns the empty tile 0");
     }
-    assert!(file.tilemap(1, 0).is_none() && file.tilemap(0, 1).is_none(), "out-of-range arguments give None");
     kani::cover!(qx == 0x8000_0000 && ox > 0);
     kani::cover!(x < 0 && qx == 0);
-    kani::cover!(w % tw != 0 && tm.width() == 3);
     core::mem::forget(file);
 }
 
